@@ -125,7 +125,7 @@ NumpyWs == IF Ev.wf = "one" THEN Ones(Len(Ev.rows))
 
 Expect ==
   LET op == Ev.op IN
-  CASE op \in {"New", "NewDefault", "NewShared"} -> X(Ev.s, FALSE, Zero(Ev.d), Ev.d, TRUE, TRUE, "det")
+  CASE op \in {"New", "NewDefault", "NewShared", "NewConv"} -> X(Ev.s, FALSE, Zero(Ev.d), Ev.d, TRUE, TRUE, "det")
     [] op = "MH" ->
          (* make_histograms: the histogram of feature Ev.cols is the fold of Fill over the rows, for the tree that
             the RETURNED bin specifications describe *)
@@ -174,7 +174,7 @@ Expect ==
     [] op \in {"Reload", "Immutable"} ->
          (* the reloaded container knows what the document says: Forget *)
          LET a == pool[Ev.a] IN [X(Ev.t, FALSE, a.c, Forget(a.d, a.c), FALSE, TRUE, "det") EXCEPT !.dt = a.dt]
-    [] op \in {"Eq", "Read", "Doc", "CatView", "Grid2D"} -> X(0, FALSE, Absent.c, DummyD, FALSE, FALSE, "pure")
+    [] op \in {"Eq", "Read", "Doc", "CatView", "Grid2D", "Acc"} -> X(0, FALSE, Absent.c, DummyD, FALSE, FALSE, "pure")
     [] op = "View" ->
          [X(0, FALSE, Absent.c, DummyD, FALSE, FALSE, "pure")
             EXCEPT !.may = ~ViewDefined(pool[Ev.a].c, Ev.hasLo, Ev.qlo, Ev.hasHi, Ev.qhi)]
@@ -189,7 +189,7 @@ Expect ==
 BagAfter(E) ==
   LET op == Ev.op IN
   IF ~WantSem \/ ~Ok \/ E.exc THEN bag ELSE
-  CASE op \in {"New", "NewDefault", "Zero"} -> [bag EXCEPT ![E.tgt] = EmptyBag]
+  CASE op \in {"New", "NewDefault", "NewConv", "Zero"} -> [bag EXCEPT ![E.tgt] = EmptyBag]
     [] op = "MH" ->
          LET RECURSIVE GoR(_, _)
              GoR(B, i) == IF i > Len(Ev.rows) THEN B ELSE GoR(B (+) SetToBag({<<Ev.rows[i], Q(1)>>}), i + 1)
@@ -253,11 +253,16 @@ Clauses(E) ==
                  \/ CASE Ev.op = "FillNumpy" -> Ev.inputs_unchanged
                       [] Ev.op = "Reload" -> Ev.strict /\ Ev.fixpoint
                       [] Ev.op = "Increment" -> Ev.same
-                      [] Ev.op = "MH" -> Ev.df_unchanged /\ Ev.nfeat
+                      [] Ev.op = "MH" -> (* the caller's frame is untouched, every row is counted, and a call that was given
+                                            the specifications an earlier call returned bins with exactly those (so
+                                            that chunks add up to the whole) *)
+                                         Ev.df_unchanged /\ Ev.nfeat /\ Ev.kept
                       [] Ev.op = "Eq" -> EqFlags(E)
                       [] Ev.op = "View" -> ViewOK(pool[Ev.a].c, Ev.hasLo, Ev.qlo, Ev.hasHi, Ev.qhi, Ev.xs, Ev.res)
                       [] Ev.op = "CatView" -> CatViewOK(pool[Ev.a].c, Ev.res)
                       [] Ev.op = "Grid2D" -> Grid2DOK(pool[Ev.a].c, Ev.res)
+                      [] Ev.op = "Acc" -> AccBad(pool[Ev.a].c, Ev.xs, Ev.ks, Ev.res) = {}
+                      [] Ev.op = "NewConv" -> ConvOK(Ev.conv, Ev.d)     \* the tree this convenience name stands for
                       [] Ev.op = "Doc" -> /\ Strict(Ev.doc)
                                           /\ DocEq(Ev.doc, ToDoc(pool[Ev.a].c, pool[Ev.a].d))
                       [] Ev.op = "FromDoc" ->
@@ -307,7 +312,10 @@ ClauseNames == {"outcome", "shape", "budget", "state", "unchanged", "frame", "id
 Report(E, cl) ==
   PrintT(ToJson([t |-> T.id, l |-> l, op |-> Ev.op, cl |-> cl, dev |-> DevFor(E, cl),
                  exp |-> IF cl \in {"state", "sem"} /\ E.how \in {"det", "strip"} THEN <<E.c>> ELSE <<>>,
-                 obs |-> IF cl \in {"state", "sem", "wf", "shape"} /\ E.tgt # 0 THEN <<ObsC(E.tgt)>> ELSE <<>>]))
+                 obs |-> IF cl \in {"state", "sem", "wf", "shape"} /\ E.tgt # 0 THEN <<ObsC(E.tgt)>>
+                         ELSE IF cl = "flags" /\ Ev.op = "Acc" /\ Ok
+                              THEN <<AccBad(pool[Ev.a].c, Ev.xs, Ev.ks, Ev.res)>>     \* the accessors that disagree
+                         ELSE <<>>]))
 
 (* after these failures the rest of the trace cannot be interpreted        *)
 Fatal(F) == ~F.shape \/ ~F.budget \/ (Ok /\ ~F.outcome) \/ (Ok /\ Expect.how = "free")
